@@ -248,7 +248,7 @@ def errOut (tryMode : Bool) : SrcErr → String
   | .exhausted => "blocked"
   | .diverged => "blocked"
 
-def XORSHIFT_FUEL : Nat := 1000000
+def XORSHIFT_FUEL : Nat := 8000000
 
 /-- `from_rng` (`tryMode = false`) / `try_from_rng` with the slot value `src` as source:
     result line, new generator, new source -/
@@ -407,6 +407,10 @@ def step (ss : Slots) (line : String) : String × Slots :=
   let toks := match toks with
     | t :: rest => if t.startsWith "@" then rest else toks
     | [] => []
+  -- `fill s n off`: the 4th token is the offset of the destination buffer from an aligned address — irrelevant for the model
+  let toks := match toks with
+    | ["fill", s, n, _] => ["fill", s, n]
+    | _ => toks
   match toks with
   | ["new", d, kind, how, arg] =>
     match d.toNat?, Kind.ofString kind with
@@ -455,6 +459,12 @@ def step (ss : Slots) (line : String) : String × Slots :=
         | some (x, v) => (hex64 x, setSlot ss i v)
         | none => ("unsupported", ss)
     | none => ("bad-op", ss)
+  | ["tappend", t, readings] =>
+    match t.toNat?, parseReadings readings with
+    | some t, some rs => match getSlot ss t with
+      | .timer old consumed => ("ok", setSlot ss t (.timer (old ++ rs) consumed))
+      | _ => ("bad-op", ss)
+    | _, _ => ("bad-op", ss)
   | ["fill", s, n] =>
     match s.toNat?, n.toNat? with
     | some i, some n => match getSlot ss i with
